@@ -262,9 +262,20 @@ pub fn encodings_for(pd: &PlanDesc, tier: Tier) -> Vec<(String, Encoding)> {
         out.push(("meta".into(), e));
     }
     for k in 0..=nchunks {
-        let mut e = base.clone();
-        e.unknown_chunk_at = Some(k);
-        out.push(("unknown-chunk".into(), e));
+        for (ci, c) in enc::COMPS.iter().enumerate() {
+            for len in [0usize, 16, 200] {
+                // quick: every position x storage with the 200-byte payload, the other lengths at the first position
+                if len != 200 && k != 0 {
+                    continue;
+                }
+                let mut e = base.clone();
+                e.unknown_chunk_at = Some(k);
+                e.unknown_comp = *c;
+                e.unknown_len = len;
+                let _ = ci;
+                out.push((format!("unknown-chunk:{:?}", c), e));
+            }
+        }
     }
     // column order
     {
